@@ -339,12 +339,13 @@ struct Cfg {
   int seed = 0;          // pre-seeded job file pattern (0 = all AVAILABLE), see seed_status()
   std::string restart;   // restart pattern of the first process (and of the others unless restart2 is set)
   std::string restart2 = "=";  // restart pattern of processes 2.. ("=" : same as restart)
+  int fail = 0;          // job id whose (stub) evaluation FAILS with an error text (0 = none)
   int crash_at = -1, crash_bytes = -1, scan = 0;
   bool recovery = false; // second phase after a crash: one fresh process with restart stat(ASSIGNED)
 };
 static std::string cfgstr(const Cfg &c) {
   return "K=" + std::to_string(c.K) + ";T=" + std::to_string(c.T) + ";jobs=" + std::to_string(c.jobs) + ";cache=" + std::to_string(c.cache) +
-         ";maxjobs=" + std::to_string(c.maxjobs) + ";seed=" + std::to_string(c.seed) + ";restart=" + c.restart + ";restart2=" + c.restart2 + ";crash=" +
+         ";maxjobs=" + std::to_string(c.maxjobs) + ";seed=" + std::to_string(c.seed) + ";restart=" + c.restart + ";restart2=" + c.restart2 + ";fail=" + std::to_string(c.fail) + ";crash=" +
          std::to_string(c.crash_at) + ":" + std::to_string(c.crash_bytes) + ";scan=" + std::to_string(c.scan);
 }
 static Cfg parsecfg(std::map<std::string, std::string> &m) {
@@ -352,6 +353,7 @@ static Cfg parsecfg(std::map<std::string, std::string> &m) {
   c.K = atoi(m["K"].c_str()); c.T = atoi(m["T"].c_str()); c.jobs = atoi(m["jobs"].c_str()); c.cache = atoi(m["cache"].c_str());
   c.maxjobs = atoi(m["maxjobs"].c_str()); c.seed = atoi(m["seed"].c_str()); c.restart = m["restart"]; c.scan = atoi(m["scan"].c_str());
   c.restart2 = m.count("restart2") ? m["restart2"] : "=";
+  c.fail = m.count("fail") ? atoi(m["fail"].c_str()) : 0;
   auto cr = bsx::split(m["crash"], ':');
   if (cr.size() == 2) { c.crash_at = atoi(cr[0].c_str()); c.crash_bytes = atoi(cr[1].c_str()); }
   return c;
@@ -443,8 +445,13 @@ void JobOp::Run() {
       vs_log(EV_EXEC, proc->pid * 100 + getId(), job->getId());
       io::log_abs(A_EXEC);
       Job::JobResult res;
-      res.setStatus(Job::COMPLETE);
-      res.setOutput("out" + std::to_string(job->getId()) + "by" + std::to_string(proc->pid));
+      if (job->getId() == proc->cfg.fail) {
+        res.setStatus(Job::FAILED);
+        res.setError("err" + std::to_string(job->getId()) + "by" + std::to_string(proc->pid));
+      } else {
+        res.setStatus(Job::COMPLETE);
+        res.setOutput("out" + std::to_string(job->getId()) + "by" + std::to_string(proc->pid));
+      }
       vs_yield(501);
       proc->obs.ReportJobDone(*job, res, *this);
       vs_log(EV_REPORT, proc->pid * 100 + getId(), job->getId());
@@ -537,7 +544,7 @@ static void child_body(const Cfg &c, vs_shared *shm, const std::vector<int> &cho
   _exit(0);
 }
 
-struct JobView { long id = 0; std::string status, host, output; bool has_host = false, has_output = false; };
+struct JobView { long id = 0; std::string status, host, output, error; bool has_host = false, has_output = false, has_error = false; };
 static bool load_view(const char *path, std::vector<JobView> &out, std::string &err) {
   out.clear();
   try {
@@ -547,6 +554,8 @@ static bool load_view(const char *path, std::vector<JobView> &out, std::string &
       v.id = j.getId(); v.status = j.getStatusStr(); v.has_host = j.hasHost(); v.has_output = j.hasOutput();
       if (j.hasHost()) v.host = j.getHost();
       if (j.hasOutput()) v.output = j.getOutput().as<std::string>();
+      v.has_error = j.hasError();
+      if (j.hasError()) v.error = j.getError();
       out.push_back(v);
     }
     return true;
@@ -654,7 +663,11 @@ static Verdict judge(const Cfg &c, const vsx::Exec &x) {
       long pid = it->second[0] / 100;
       std::string wanthost = host + ":" + std::to_string(pid);
       std::string wantout = "out" + std::to_string(j) + "by" + std::to_string(pid);
-      if (f.status != "COMPLETE" || !f.has_output || f.output != wantout || f.host != wanthost)
+      if (j == c.fail) {
+        std::string wanterr = "err" + std::to_string(j) + "by" + std::to_string(pid);
+        if (f.status != "FAILED" || !f.has_error || f.error != wanterr || f.host != wanthost || f.has_output)
+          bad(std::string(c.K > 1 ? "multiprocess" : "local") + "-failed-result-lost", "job " + std::to_string(j) + " failed in " + std::to_string(pid) + " with an error text but the final file says status=" + f.status + " host=" + f.host + " error=" + f.error + (f.has_output ? " (and carries an output)" : ""));
+      } else if (f.status != "COMPLETE" || !f.has_output || f.output != wantout || f.host != wanthost)
         bad(std::string(c.K > 1 ? "multiprocess" : "local") + "-result-lost", "job " + std::to_string(j) + " executed by " + std::to_string(pid) + " but final file says status=" + f.status + " host=" + f.host + " output=" + f.output);
     } else if (it == execs.end()) {
       if (f.status != s.status || (f.has_host ? f.host : "") != s.host || (f.has_output ? f.output : "") != s.output)
@@ -945,6 +958,14 @@ int main(int argc, char **argv) {
           // patterns are only meaningful (and only explored) for a single process
           if (kt.first > 1 && rs.find("ASSIGNED") != std::string::npos) continue;
           Cfg c; c.K = kt.first; c.T = kt.second; c.jobs = 4; c.cache = 2; c.seed = seed; c.restart = rs;
+          cfgs.push_back(c);
+        }
+    // a job whose evaluation fails: status FAILED and the error text must reach the file like any other result
+    for (auto kt : std::vector<std::pair<int, int>>{{1, 1}, {1, 2}, {2, 1}})
+      for (int jobs : {1, 2})
+        for (int failj : {1, 2}) {
+          if (failj > jobs || (!thorough && kt.first * kt.second > 1 && jobs == 1)) continue;
+          Cfg c; c.K = kt.first; c.T = kt.second; c.jobs = jobs; c.cache = 1; c.fail = failj;
           cfgs.push_back(c);
         }
     // two processes, one of which (or both) re-opens COMPLETE jobs of another host while the other one still
